@@ -84,10 +84,30 @@ def search_group(seed, n):
             else:
                 inc = cls(delta)
             checks.append(("boxplus_is_oplus_expmap", H(a + delta), H(a) @ H(inc)))
-            # += delegates to +
+            # += delegates to +, never mutates its operands, and tolerates an aliased right operand
             a2 = a.copy()
+            a2_id = id(a2)
+            a_before = np.asarray(a).tobytes()
             a2 += b
             checks.append(("iadd", H(a2), H(a + b)))
+            a3 = a.copy()
+            a3 += a3
+            checks.append(("iadd_aliased", H(a3), H(a) @ H(a)))
+            a4 = a.copy()
+            alias = a4
+            a4 += b
+            checks.append(("iadd_rebinds", np.asarray(alias), np.asarray(a)))
+            # box-plus on the boundary |dv| = 1 (a half turn is a legal compact increment)
+            if cname == "PoseSE3":
+                axis = np.zeros(3)
+                axis[rng.randrange(3)] = rng.sign()
+                if rng.random() < 0.5:
+                    v = np.array([rng.gauss(0, 1) for _ in range(3)])
+                    axis = v / np.linalg.norm(v)
+                    axis = axis / math.sqrt(float(axis @ axis))
+                if float(axis @ axis) == 1.0 and float(np.linalg.norm(axis)) <= 1.0:
+                    dl = np.concatenate([delta[:3], axis])
+                    checks.append(("boxplus_unit_rotation_increment", H(a + dl), H(a) @ H(PoseSE3(dl[:3], list(axis) + [0.0]))))
             for name, X, Y in checks:
                 ev += 1
                 if not close(X, Y, sc):
